@@ -97,7 +97,7 @@ CLAIMS['C10'] = dict(
     design='§4 C01/C02/C03/C10')
 CLAIMS['C07'] = dict(
     text=('Partial: the export-side kernels the statement singles out. label_location lies in the closed shape for rectangles (i32 '
-          'corners), two-point Manhattan paths; '
+          'corners), two-point Manhattan paths (thorough: three-point straight or L-shaped Manhattan paths); '
           'export_shape turns a rectangle into the closed five-point boundary through its corners with its layer/datatype numbers and keeps '
           'a path open with exactly its points and width, over all of i64 (out-of-range => Err, never truncation); each of the four Units '
           'written by export_lib is mapped back to itself by import_units.'),
@@ -119,7 +119,7 @@ CLAIMS['C09'] = dict(
     design='§4 (C09), §5')
 CLAIMS['C14'] = dict(
     text=('Partial: kernel pairs export∘import of the raw <-> protobuf conversion on symbolic values: Rect (compared as boxes; and '
-          'proto->raw->proto gives the equal message), Polygon (3 points), Path (2 points, width), Instance (name, target cell, location, reflection, rotation None/90/180/270), Units and text annotations; '
+          'proto->raw->proto gives the equal message), Polygon (3 points; thorough 4), Path (2 points, width; thorough 3 points), Instance (name, target cell, location, reflection, rotation None/90/180/270), Units and text annotations; '
           'Units::Pico => Err; each mandatory sub-message removed in turn => Err, the complete message accepted.'),
     note=('ProtoImporter::import_reference is stubbed to a harness-chosen cell for local references (it wraps a HashMap lookup). Dropped: '
           'dependency-ordered export, reference resolution, per-layer grouping, layer/purpose numbers, abstracts (hash containers). Names '
